@@ -3,7 +3,7 @@
    decoders/encoders of sx, no logic that a property theorem speaks about. *)
 From Coq Require Import ZArith List Bool.
 From V Require Import Result Bytes TypeName Utf8 Float32 Codec AuxTable.
-From V Require World WorldRun Cfg CfgRun ByteStore ByteRun Proto ProtoRun.
+From V Require World WorldRun Cfg CfgRun ByteStore ByteRun Proto ProtoRun SeqOps SeqRun.
 Import ListNotations.
 Open Scope Z_scope.
 
@@ -148,5 +148,7 @@ Definition run (req : sx) : sx :=
   (* 40-42: protobuf writer / reader / round trip at message level *)
   | L (A 40 :: _) | L (A 41 :: _) | L (A 42 :: _) | L (A 43 :: _) => ProtoRun.run_proto req
   | L [A 31; size; init; contents; items] => ByteRun.run_bytes size init contents items
+  (* 50: the read-only sequence protocol on one list of node ids *)
+  | L [A 50; l; qs] => SeqRun.run_seq l qs
   | _ => L [A (-2)]
   end.
